@@ -6,7 +6,12 @@ Tie (layered correspondence, all evaluated inside Coq against Model/PairCount.v)
   L3  autocorrelate / crosscorrelate (all count kinds) on catalogs created by the real
       Catalog.from_dataframe  vs  count_cell (linkage + pair iteration + cell writes)  and vs
       spec_cell (every object pair with separation in (lo,hi], unordered pairs once), plus the
-      stored per-bin per-patch weight sums and the patch links.
+      stored per-bin per-patch weight sums and the patch links;
+  L3-cover  per catalog of every L3 scenario: the stored radius of every patch contains every object of the
+      patch around the STORED centre (c01_cover_case: the hypothesis of the pruning theorems, discharged for the
+      model radius by C01_prune_sound_stored_radii), and is the model radius (largest separation from the stored
+      centre).  The data of a scenario sit symmetric around the given centres, or one-sided / on an arc / in the
+      corner of a 2x2 block / in a clump at the rim / as a single object far from the centre (SHAPES).
 Separations are squared chord lengths of the implementation's own unit vectors, as exact
 integers at a common power-of-two scale; thresholds are the exact squares of the
 implementation's chord radii.  Cases with a pair within 2^-40 (relative) of a threshold are
@@ -26,13 +31,15 @@ TRUSTED = [
     "scipy KDTree.count_neighbors is exercised (L1) not modelled; the model starts from its documented semantics (cumulative: d<=r_k; else (r_{k-1}, r_k], first bin d<=r_0)",
     "angles per scale and bin (get_angle_radian) are compared (rel. 1e-11) with scale / distance written out in the harness on its own astropy cosmology instance (default, unnamed FlatLambdaCDM, clones; varied within one process) and then taken as tables, like the merged grid (get_ang_bins) and chord radii (AngularDistances.to_3d), whose correctness is C15 / C14; astropy's distance integrals are trusted",
     "harness: integer scaling of unit vectors, near-tie filter, classification of a failing cell",
+    "patch centres, radii and the pruning angle enter the linkage model as tables read from the implementation (get_centers, get_radii, get_max_angle); the radii are not trusted to be radii: each is checked to contain the objects of its patch around the stored centre (L3-cover, 2^-40 relative allowance for the implementation's float distance)",
 ]
 ASSUMPTIONS = [
     "float rounding at interval ends is excluded (near ties skipped, counted in the evidence)",
     "weights are dyadic so float64 sums/products are exact; with separation weighting results are compared to 2^-40 relative",
 ]
 RULE = ("L1 cases = (points of two trees, scale list, weight_scale, weight_res); L3 cases = (auto/cross, catalogs with "
-        "2-5 patches, 1-3 bins, scales, unit, region); distinct by generator parameters + data seed; non-trivial when at "
+        "2-5 patches, 1-3 bins, scales, unit, region, shape of the data relative to the given centres, facing, line / 2x2 block, "
+        "centres as coordinates / catalog); distinct by generator parameters + data seed; non-trivial when at "
         "least one pair falls inside some scale (L1) / some cell is non-zero (L3)")
 HEADER = "From Verif Require Import Prelude PairCount.\nOpen Scope Q_scope.\n"
 TIE = Fraction(1, 2 ** 40)
@@ -271,6 +278,7 @@ def run_l1(ctx):
                                         got=[float(x) for x in got])))
         ctx.sample(dict(layer="L1", na=na, nb=nb, amin=amin, amax=amax, ws=ws, wres=wres, got=[float(x) for x in got]), limit=2)
     codes = ctx.shards("Cases_C01_L1", HEADER, terms, shard=40)
+    ctx.log("L1: %d cases evaluated" % len(terms))
     for (cid, meta), c in zip(metas, codes):
         if not c:
             continue
@@ -731,7 +739,9 @@ def run_l3(ctx):
             ctx.count(key=("l3-raise", cid), kind="L3/raised")
             ctx.fail("c01-measure-raises:%s" % type(e).__name__, "measurement on valid catalogs raised %r" % e,
                      dict(layer="L3", spec=spec, traceback=traceback.format_exc()[-1500:]), case=(cid, "raise"))
-    codes = ctx.shards("Cases_C01_L3", HEADER, terms, shard=6)
+    ctx.log("L3: %d scenarios run, %d count cases, %d coverage cases" % (len(specs), len(terms), len(cov["terms"])))
+    codes = ctx.shards("Cases_C01_L3", HEADER, terms, shard=3)
+    ctx.log("L3: count cases evaluated")
     failed = {}   # L3 scenario -> case ids with a failing count cell
     for (cid, meta, cause), c in zip(metas, codes):
         if not c:
@@ -752,6 +762,7 @@ def run_l3(ctx):
             ctx.disagree("Cases_C01_L3", cid, dict(code=c, meta=meta))
     # coverage of the stored radii (the table the linkage model takes from the implementation)
     ccodes = ctx.shards("Cases_C01_COV", HEADER, cov["terms"], shard=30)
+    ctx.log("L3: coverage cases evaluated")
     for (cid, name, meta), c in zip(cov["metas"], ccodes):
         if c is None:
             continue
